@@ -693,4 +693,28 @@ theorem brd_index_off_by_one_breaks :
     slot (writeAt (List.replicate 8 0 ++ List.replicate 8 7) (seekPos 8 (1 + 1) 0) (List.replicate 8 1)) 8 0
       = List.replicate 8 0 := by decide
 
+
+/-! #### the `multi` union: the value the setters store is the value pttbbs reads there -/
+
+theorem unLe32_le32 (n : Nat) (h : n < 4294967296) : unLe32 (le32 n) = n := by
+  simp only [le32, unLe32]; omega
+
+theorem toI32_toU32 (v : Int) (lo : -2147483648 ≤ v) (hi : v < 2147483648) : toI32 (toU32 v) = v := by
+  unfold toI32 toU32
+  split
+  · simp only [Int.ofNat_eq_natCast]; omega
+  · simp only [Int.negSucc_eq]; omega
+
+/-- for every 32-bit value and every earlier content of the union: the getter returns what the setter stored, the
+four bytes are the little-endian two's-complement image of exactly that value (no re-basing), and the length stays 4. -/
+theorem multi_set_get (pre : List Nat) (v : Int) (hp : pre.length = 4) (lo : -2147483648 ≤ v) (hi : v < 2147483648) :
+    getMulti (setMulti pre v) = v ∧ (setMulti pre v).take 4 = le32 (toU32 v) ∧ (setMulti pre v).length = 4 := by
+  have hl : (le32 (toU32 v)).length = 4 := by simp [le32]
+  have ht : (setMulti pre v).take 4 = le32 (toU32 v) := by
+    unfold setMulti; rw [List.take_append_of_le_length (by omega)]; simp [le32]
+  refine ⟨?_, ht, by simp [setMulti, hl, hp]⟩
+  unfold getMulti; rw [ht, unLe32_le32 _ (by unfold toU32; omega), toI32_toU32 v lo hi]
+
+example : setMulti [9, 9, 9, 9] 5 = [5, 0, 0, 0] ∧ getMulti [5, 0, 0, 0] = 5 ∧ setMulti [0, 0, 0, 0] (-2) = [254, 255, 255, 255] := by decide
+
 end PttVerif.C01.Props
